@@ -36,6 +36,8 @@ def run(ctx):
     check_chunks(ctx, prog, m)
     check_numbers(ctx, prog)
     check_utf16_helper(ctx)
+    import nullret
+    nullret.check(ctx, prog, 'C06', ('Xdl.cpp',))
     return __doc__.split('\n\n', 1)[1]
 
 
